@@ -206,7 +206,9 @@ class ImageTransformer(SpatialTransformer):
     ) -> Union[Tensor, Tuple[Tensor, Tensor], Dict[str, Union[Tensor, Grid]]]:
         r"""Sample batch of images at spatially transformed target grid points."""
         grid: Tensor = self.grid_coords
-        grid = self._transform(grid, grid=True)
+        # Points are the undeformed lattice of the transformation domain only if target grid covers this domain
+        is_lattice = self._target_grid.same_domain_as(self._transform.grid())
+        grid = self._transform(grid, grid=is_lattice)
         if self._flip_coords:
             grid = grid.flip((-1,))
         return self._sample(grid, data, mask)
